@@ -30,7 +30,7 @@ Section Laws.
 
   Lemma decode_full_total b :
     returns (decode b) -> returns (decode_full T decode b).
-  Proof.
+  Proof using T decode.
     unfold decode_full, bind. destruct (decode b) as [[q r]| | |]; simpl; try tauto.
     destruct r; simpl; tauto.
   Qed.
